@@ -2,12 +2,13 @@
    Statements only; proofs are in MgrProofs.v, the model (a transcription of the code) in MgrModel.v. *)
 Require Import SquidV.Bytes SquidV.B64Model SquidV.MgrModel SquidV.MgrProofs.
 Require Import SquidV.gen.Mgr_gen.
+Local Open Scope N_scope.
 
 (* The built-in ACL read from src/cf.data.pre today has the shape the model transcribes:
    `url_regex`, case-sensitive (+i), `^[^:]+://[^/]+` followed by a literal that is the manager URL prefix. *)
 Theorem C61_manager_acl_is_the_modelled_regex :
   mgr_acl_shape_ok = true /\ mgr_regex_lit = mgr_prefix.
-Proof. exact (conj shape_ok lit_is_prefix). Qed.
+Proof. exact acl_shape. Qed.
 Print Assumptions C61_manager_acl_is_the_modelled_regex.
 
 (* The regex, as matched by regexec on a C string, for ALL byte strings: a non-empty colon-free scheme, "://",
@@ -26,7 +27,7 @@ Theorem C61_http_access_first_match :
   forall mgr local pre r post,
     forallb (fun x => negb (rule_matches mgr local x)) pre = true -> rule_matches mgr local r = true ->
     access_allowed mgr local (pre ++ r :: post) = r_allow r.
-Proof. intros; apply eval_rules_first; assumption. Qed.
+Proof. exact access_first_match. Qed.
 Print Assumptions C61_http_access_first_match.
 
 (* ... and when none matches, the answer is the reverse of the last line (deny when there is no line at all). *)
@@ -34,7 +35,7 @@ Theorem C61_http_access_implicit_default :
   forall mgr local rules,
     forallb (fun x => negb (rule_matches mgr local x)) rules = true ->
     access_allowed mgr local rules = match rev rules with r :: _ => negb (r_allow r) | [] => false end.
-Proof. intros; unfold access_allowed; rewrite eval_rules_none by assumption; reflexivity. Qed.
+Proof. exact access_implicit_default. Qed.
 Print Assumptions C61_http_access_implicit_default.
 
 (* (1) Whatever the cache manager itself answers (report, index page, password challenge, its own 404) is
@@ -53,7 +54,7 @@ Theorem C61_manager_acl_covers_manager_requests_partial :
     host_ok (e_myhost e) -> no_userinfo q -> q_scheme q <> SOther ->
     is_internal e q = true -> for_cache_manager q = true ->
     acl_manager q = true.
-Proof. intros e q Hh Hn Hs Hi Hf. exact (acl_covers e q Hi Hf Hs (no_userinfo_part q Hn) Hh). Qed.
+Proof. exact acl_covers_partial. Qed.
 Print Assumptions C61_manager_acl_covers_manager_requests_partial.
 
 (* ... hence `http_access deny manager` as the first line refuses them all: no cache-manager answer of any kind,
@@ -74,10 +75,7 @@ Theorem C61_deny_manager_blocks_manager_requests_refuted :
     host_ok (e_myhost e)
     /\ is_internal e q = true /\ for_cache_manager q = true /\ acl_manager q = false
     /\ handle e menu pl (mkRule false [AMgr] :: rest) q = RReport s_menu.
-Proof.
-  exists w_env, w_menu, [], [mkRule true [AAll]], w_bypass.
-  destruct bypass_witness as (H1 & H2 & H3 & H4 & H5 & _). repeat split; assumption.
-Qed.
+Proof. exact deny_manager_refuted. Qed.
 Print Assumptions C61_deny_manager_blocks_manager_requests_refuted.
 
 (* (3) The action performed is the one the URL names (path after the prefix up to '?' or '#'), and it is in the table. *)
@@ -115,11 +113,7 @@ Theorem C61_password_exact_refuted :
     first_covering pl n e0 /\ pe_passwd e0 <> kw_none
     /\ handle e menu pl rules q = RReport n
     /\ supplied_password (q_auth q) <> pe_passwd e0.
-Proof.
-  exists w_env, w_menu, w_pl, [mkRule true [AAll]], w_nul, s_info, (mkPw s_secret [s_info]).
-  destruct nul_witness as (H1 & H2 & H3 & _). repeat split; try assumption; [discriminate|].
-  rewrite H3. discriminate.
-Qed.
+Proof. exact password_exact_refuted. Qed.
 Print Assumptions C61_password_exact_refuted.
 
 (* (5) Disabled actions, and password-required actions without a configured password, are never performed and not
@@ -143,7 +137,7 @@ Print Assumptions C61_first_covering_line_is_passwdget.
 (* hypotheses are satisfiable and the statements are not vacuous *)
 Example C61_ex_hypotheses :
   host_ok (e_myhost w_env) /\ path_ok w_good /\ no_userinfo w_plain /\ no_userinfo w_good /\ uncovered w_pl s_menu.
-Proof. destruct examples as (H1 & H2 & H3 & H4 & _). exact (conj w_host_ok (conj H1 (conj H2 (conj H3 H4)))). Qed.
+Proof. exact ex_hypotheses. Qed.
 
 Example C61_ex_outcomes :
   handle w_env w_menu w_pl [mkRule true [AAll]] w_good = RReport s_info
@@ -153,7 +147,4 @@ Example C61_ex_outcomes :
        (mkReq MGet SHttp [] w_host 3128 (q_path w_bypass) None) = RNotFound
   /\ handle w_env w_menu [] [mkRule true [AAll]]
        (mkReq MGet SHttp [] w_host 3128 (mgr_prefix ++ s_shutdown) (q_auth w_good)) = RNotFound.
-Proof.
-  destruct nul_witness as (_ & _ & _ & H1 & H2). destruct bypass_witness as (_ & _ & _ & _ & _ & H3).
-  destruct examples as (_ & _ & _ & _ & _ & H4 & H5). repeat split; assumption.
-Qed.
+Proof. exact ex_outcomes. Qed.
